@@ -195,7 +195,7 @@ RefCreate(s, parent, name) ==
     IN
     IF parent = "prov" /\ s.phase # "built" THEN Feed(a0, RetEv("create", <<"providerDisposed">>, NoneRes))
     ELSE IF ~IsOpen(s, ps) THEN Feed(a0, RetEv("create", <<"scopeDisposed">>, NoneRes))
-    ELSE LET inits == {id \in RegIds(s.cfg) : LifeOf(s.cfg, id) = "scoped" /\ IsInit(Reg(s.cfg, id))}
+    ELSE LET inits == {id \in LiveRegIds(s.cfg) : LifeOf(s.cfg, id) = "scoped" /\ IsInit(Reg(s.cfg, id))}
              r == RefInits(a0, name, inits)
          IN IF r.ok THEN Feed(r.a, RetEv("create", <<>>, NoneRes))
             ELSE LET es == CloseEvents(r.a.st, name)
@@ -209,6 +209,9 @@ RefResolve(s, sc, t, k) ==
     ELSE IF ~IsOpen(s, ss) THEN Feed(a0, RetEv("resolve", <<"scopeDisposed">>, NoneRes))
     ELSE IF t \in Builtins /\ k = NONE THEN
         Feed(a0, RetEv("resolve", <<>>, [k |-> t, ids |-> <<>>, s |-> IF t = "prov" THEN NONE ELSE ss]))
+    ELSE IF t = "V" THEN
+        (IF VoidRegs(s.cfg, k) # {} THEN Feed(a0, RetEv("resolve", <<>>, [k |-> "void", ids |-> <<>>, s |-> NONE]))
+         ELSE Feed(a0, RetEv("resolve", <<"notfound", "resolution">>, NoneRes)))
     ELSE IF ~HasProvider(s.cfg, t, k) THEN Feed(a0, RetEv("resolve", <<"notfound", "resolution">>, NoneRes))
     ELSE LET p == ProviderOf(s.cfg, t, k)
              r == RefOut(a0, ss, p[1], p[2])
@@ -276,10 +279,12 @@ GroupIds == {[t |-> o.t, g |-> o.g] : o \in {x \in {OutsOf(st.cfg.regs[q[1]])[q[
 
 TransCount(sc) == Cardinality({i \in InstIds(st) : st.inst[i].life = "transient" /\ st.inst[i].owner = ScopeOfCall(sc)})
 
+\* named initialization functions (live or removed) are resolvable identities ("V", name) too
+VoidIdentities == {[t |-> "V", k |-> st.cfg.regs[i].name] : i \in {j \in DOMAIN st.cfg.regs : IsInit(st.cfg.regs[j]) /\ st.cfg.regs[j].name # NONE}}
 Resolve == /\ Room /\ st.phase \in {"built", "closed"}
-           /\ \E sc \in Targets : \E i \in Identities :
+           /\ \E sc \in Targets : \E i \in Identities \cup VoidIdentities :
                 /\ TransCount(sc) < MaxTrans
-                /\ HasProvider(st.cfg, i.t, i.k)
+                /\ (HasProvider(st.cfg, i.t, i.k) \/ i.t = "V")
                 /\ Do(RefResolve(st, sc, i.t, i.k), OpRec("resolve", sc, NONE, i.t, i.k, NONE))
 
 ResolveGroup == /\ Room /\ st.phase \in {"built", "closed"}
